@@ -668,3 +668,10 @@ def pre_checks(ctx):
     except Exception as e:
         bad.append(("correspondence:several-objects", "pre-check crashed: %r" % (e,)))
     return bad
+
+
+# functions of /repo whose executed-line coverage by this run is reported in the evidence
+ANCHORS = [('swh/model/cli.py', 'identify'),
+           ('swh/model/cli.py', 'identify_object'),
+           ('swh/model/cli.py', 'swhid_of_*'),
+           ('swh/model/cli.py', 'model_of_dir')]
